@@ -347,22 +347,35 @@ Proof.
   - destruct (n_rel (getn (s_nodes s) to)) eqn:Rl; [left; rewrite I; apply A; exact Rl | right; apply Lk; reflexivity].
 Qed.
 
-Lemma unwind_keeps_claims : forall r stk cs below,
-  unwind r stk = Some (cs, below) ->
-  (forall f, In f stk -> claim f = true -> In f below) /\ (forall f, In f below -> In f stk).
+Lemma do_fail_stale : forall s r stk retry s1 st sp others F0,
+  do_fail s r stk retry = Some (s1, st, sp) ->
+  (forall f, In f F0 -> claim f = true -> In f (stk ++ others)) ->
+  (forall f, In f (stk ++ others) -> claim f = true -> In f F0) ->
+  stale_on (s_nodes s) (s_slots s) F0 -> stale_on (s_nodes s1) (s_slots s1) (st ++ others ++ concat sp).
 Proof.
-  induction stk as [|h t IH]; simpl; intros cs below H; [discriminate|].
-  destruct h; try discriminate.
-  - destruct (Nat.eqb r r0); [|discriminate]. destruct (IH _ _ H) as [I1 I2]. split.
-    + intros f [<-|Hf] Hc; [discriminate | apply I1; assumption].
-    + intros f Hf. right. apply I2. exact Hf.
-  - destruct (Nat.eqb r r0); [|discriminate]. destruct (unwind r t) as [[cs' b']|] eqn:U; [|discriminate].
-    inversion H; subst. destruct (IH _ _ eq_refl) as [I1 I2]. split.
-    + intros f [<-|Hf] Hc; [discriminate | apply I1; assumption].
-    + intros f Hf. right. apply I2. exact Hf.
-  - destruct (Nat.eqb r r0); [|discriminate]. inversion H; subst. split.
-    + intros f [<-|Hf] Hc; [discriminate | exact Hf].
-    + intros f Hf. right. exact Hf.
+  intros s r stk retry s1 st sp others F0 H K1 K2 Inv.
+  destruct (do_fail_spec _ _ _ _ _ _ _ H) as [cs [ks [below [term [y [U [N [Sl [R [Y1 [Y2 [Y3 [Y4 [Y5 [Y6 [Y7 [Y8 T]]]]]]]]]]]]]]]]].
+  destruct (unwind_split _ _ _ _ _ _ U) as [d [l [E [Fd [L _]]]]].
+  assert (RI : forall f cs0, In f (concat (map (fun c0 => [FRelEnter c0]) cs0)) -> exists x, f = FRelEnter x).
+  { intros f cs0. induction cs0 as [|h t IH]; simpl; [intros []|]. intros [<-|Hf]; [eexists; reflexivity | apply IH; exact Hf]. }
+  assert (Cl : forall f, In f stk -> claim f = true -> In f below).
+  { intros f Hf Hc. rewrite E in Hf. apply in_app_iff in Hf. destruct Hf as [Hf|[<-|Hf]]; [| |exact Hf].
+    - rewrite forallb_forall in Fd. specialize (Fd f Hf). destruct f; simpl in *; discriminate.
+    - destruct term; simpl in L; [subst l; discriminate | destruct L as [c ->]; discriminate]. }
+  assert (Sub : forall f, In f below -> In f stk) by (intros f Hf; rewrite E; apply in_app_iff; right; right; exact Hf).
+  rewrite N, Sl. eapply stale_plain; [apply same_oiv_refl | | | exact Inv].
+  - intros f Hf Hc. specialize (K1 f Hf Hc). apply in_app_iff in K1. rewrite !in_app_iff.
+    destruct K1 as [Q|Q]; [left | right; left; exact Q].
+    destruct term; [destruct T as [-> _] | destruct T as [-> _]]; right; apply Cl; assumption.
+  - intros f Hf Hc. rewrite !in_app_iff in Hf. destruct Hf as [Hf|[Hf|Hf]].
+    + destruct term; [destruct T as [-> _] | destruct T as [-> _]]; simpl in Hf;
+        (destruct Hf as [<-|Hf]; [discriminate | left; apply K2; [apply in_app_iff; left; apply Sub; exact Hf | exact Hc]]).
+    + left. apply K2; [apply in_app_iff; right; exact Hf | exact Hc].
+    + right. right. destruct term.
+      * destruct T as [_ [-> _]]. apply RI in Hf. exact Hf.
+      * destruct T as [_ [_ [[_ [-> _]]|[_ [-> _]]]]].
+        -- rewrite concat_app in Hf. apply in_app_iff in Hf. destruct Hf as [Hf|[<-|[]]]; [apply RI in Hf; exact Hf | discriminate].
+        -- apply RI in Hf. exact Hf.
 Qed.
 
 Ltac k1_tac :=
@@ -548,25 +561,9 @@ Proof.
     destruct p as [|o q]; [discriminate|].
     assert (Fail : forall retry, do_fail s r (FScript r c q :: rest) retry = Some (s1, st, sp) ->
                    stale_on (s_nodes s1) (s_slots s1) (st ++ others ++ concat sp)).
-    { intros retry HF. unfold do_fail in HF.
-      destruct (unwind r (FScript r c q :: rest)) as [[cs below]|] eqn:U; [|discriminate].
-      simpl in U. rewrite Nat.eqb_refl in U.
-      destruct (unwind_keeps_claims _ _ _ _ U) as [UK UB].
-      assert (RI : forall f cs0, In f (concat (map (fun c0 => [FRelEnter c0]) cs0)) -> exists x, f = FRelEnter x).
-      { intros f cs0. induction cs0 as [|h t IH]; simpl; [intros []|]. intros [<-|Hf]; [eexists; reflexivity | apply IH; exact Hf]. }
-      destruct retry; inversion HF; subst; clear HF; simpl;
-        (eapply stale_plain; [apply same_oiv_refl | | | exact Inv]).
-      - intros f Hf Hc. simpl in Hf. destruct Hf as [<-|Hf]; [discriminate|]. simpl. right.
-        apply in_app_iff in Hf. rewrite !in_app_iff. destruct Hf as [Hf|Hf]; [left; apply UK; assumption | right; left; exact Hf].
-      - intros f Hf Hc. simpl in Hf. rewrite ?in_app_iff, ?concat_app, ?in_app_iff in Hf. simpl in Hf.
-        destruct Hf as [<-|[Hf|[Hf|[Hf|Hf]]]]; [discriminate | left; right; apply in_app_iff; left; apply UB; exact Hf
-          | left; right; apply in_app_iff; right; exact Hf | destruct (RI _ _ Hf) as [x ->]; right; right; eauto |].
-        destruct Hf as [<-|[]]. discriminate.
-      - intros f Hf Hc. simpl in Hf. destruct Hf as [<-|Hf]; [discriminate|]. simpl. right.
-        apply in_app_iff in Hf. rewrite !in_app_iff. destruct Hf as [Hf|Hf]; [left; apply UK; assumption | right; left; exact Hf].
-      - intros f Hf Hc. simpl in Hf. rewrite ?in_app_iff in Hf.
-        destruct Hf as [<-|[Hf|[Hf|Hf]]]; [discriminate | left; right; apply in_app_iff; left; apply UB; exact Hf
-          | left; right; apply in_app_iff; right; exact Hf | destruct (RI _ _ Hf) as [x ->]; right; right; eauto]. }
+    { intros retry HF. eapply do_fail_stale; [exact HF | | | exact Inv].
+      - intros f Hf Hc. simpl in Hf. destruct Hf as [<-|Hf]; [discriminate | simpl; right; exact Hf].
+      - intros f Hf Hc. simpl in Hf. destruct Hf as [<-|Hf]; [discriminate | right; exact Hf]. }
     destruct o.
     + (* ODep: the compute function reads the slot's current resource *)
       injection H as E1 E2 E3. subst s1 st sp. simpl. rewrite app_nil_r.
@@ -582,11 +579,18 @@ Proof.
         injection Q as Q1 Q2 Q3. subst c0 sl m. right. left. reflexivity.
     + destruct (Nat.eqb arg 0); [|unfold alloc in H]; inversion H; subst; clear H; simpl; stale_leaf Inv.
     + destruct (Nat.eqb arg 0).
-      * destruct (cache_get (r_cache (getr s r)) key) as [child|]; [destruct (Nat.eqb child c); [discriminate|]|]; inversion H; subst; clear H; simpl; stale_leaf Inv.
+      * destruct (memb key (r_keys (getr s r))); [discriminate|]. inversion H; subst; clear H; simpl; stale_leaf Inv.
       * destruct (Nat.eqb arg 2); [inversion H; subst; clear H; simpl; stale_leaf Inv|].
         destruct (r_cancel (getr s r)); [|discriminate]. eapply Fail; eauto.
     + destruct (Nat.eqb arg 0); [inversion H; subst; clear H; simpl; stale_leaf Inv | eapply Fail; eauto].
     + destruct (Nat.eqb arg 0); [inversion H; subst; clear H; simpl; stale_leaf Inv | eapply Fail; eauto].
+    + (* OPar *)
+      inversion H; subst; clear H. simpl.
+      eapply stale_plain; [ | | | exact Inv]; [apply same_oiv_refl | k1_tac | ].
+      intros f Hf Hc. simpl in Hf. rewrite ?in_app_iff in Hf. destruct Hf as [<-|[<-|[Hf|[Hf|Hf]]]];
+        [discriminate | discriminate | left; right; apply in_app_iff; tauto | left; right; apply in_app_iff; tauto |].
+      exfalso. apply in_concat in Hf. destruct Hf as [t [Ht Hf]]. destruct (branch_tasks_in _ _ _ _ _ _ Ht) as [idx [b [_ ->]]].
+      simpl in Hf. destruct Hf as [<-|[<-|[<-|[]]]]; discriminate.
   - (* FDepAdd: AddDependency *)
     destruct (do_add_out s res c) as [[s2 sp2]|] eqn:A; [|discriminate]. injection H as E1 E2 E3. subst s1 st sp.
     destruct Ar as [Arel _].
@@ -650,6 +654,19 @@ Proof.
       * destruct Lk as [Lk|Lk]; [left; exists parent; split; [apply reach_refl | left; exact Lk]|].
         right. split; [exact Ev|]. destruct Rp as [m [H1 H2]]. exists m. split; [exact H1|].
         eapply reach_trans; [exact H2 | eapply reach_edge; [exact Lk | apply reach_refl]].
+  - (* FCacheGet *)
+    destruct (cache_get (r_cache (getr s r)) key) as [child|]; [destruct (Nat.eqb child c); [discriminate|]|];
+      inversion H; subst; clear H; simpl; stale_leaf Inv.
+  - (* FKeyUnlock *) inversion H; subst; clear H. simpl. stale_leaf Inv.
+  - (* FJoin *)
+    destruct (nth jid (s_joins s) (0, false)) as [nb failed]. destruct (Nat.eqb nb 0); [|discriminate].
+    destruct failed; [|inversion H; subst; clear H; stale_leaf Inv].
+    eapply do_fail_stale; [exact H | | | exact Inv].
+    + intros f Hf Hc. simpl in Hf. destruct Hf as [<-|Hf]; [discriminate | exact Hf].
+    + intros f Hf Hc. right. exact Hf.
+  - (* FBranchBegin *) inversion H; subst; clear H. stale_leaf Inv.
+  - (* FBranchEnd *)
+    destruct (nth jid (s_joins s) (0, false)) as [nb failed]. inversion H; subst; clear H. simpl. stale_leaf Inv.
   - (* FRunEnd *)
     inversion H; subst; clear H. simpl.
     eapply stale_plain; [ | | | exact Inv]; [apply same_oiv_refl | k1_tac | ].
@@ -695,7 +712,7 @@ Qed.
 Lemma step_stale : forall s l s', armed_inv s -> stale_inv s -> step s l = Some s' -> stale_inv s'.
 Proof.
   intros s l s' Ar Inv H. unfold stale_inv, armed_inv in *. destruct l.
-  - destruct (step_task_frames _ _ _ _ H) as [f [rest [s1 [st [sp [others [dropped [P1 [T [D1 [D2 [P2 [N [_ Sl]]]]]]]]]]]]]].
+  - destruct (step_task_frames _ _ _ _ H) as [f [rest [s1 [st [sp [others [dropped [P1 [T [D1 [D2 [P2 [N [_ [Sl _]]]]]]]]]]]]]]].
     rewrite N, Sl. eapply stale_on_perm; [apply Permutation_sym; exact P2|].
     assert (K := step_top_stale _ _ _ _ _ _ _ others T (armed_on_perm _ _ _ _ P1 Ar) (stale_on_perm _ _ _ _ P1 Inv)).
     rewrite D1 in K. eapply stale_drop_exhausted; [exact D2 | exact K].
